@@ -7,6 +7,9 @@ distance family: elfi.Distance nodes over scalar + vector summaries (layouts s, 
 adaptive family: elfi.AdaptiveDistance; for every composition (ordered partition) of n <= NMAX rows into add_data calls the scale must be the
   population standard deviation of all rows; several update rounds: w[-1] = 1/scale, stores reset, earlier distance columns of
   node.generate(...) unchanged, newest column = ||(x - y)/scale||_2.
+sampler family: elfi.Rejection over AdaptiveDistance(S1, S2, S3) with every ordered subset of the summary names as user output_names; an OutputPool
+  recovers every simulated row: 1/w[-1] must be the population std per summary column IN PARENT ORDER and the reported distances must be
+  ||(summaries - observed)/scale||_2 of the returned rows.
 Floats: relative tolerance 1e-9."""
 import itertools
 
@@ -315,12 +318,93 @@ def run_adaptive(tier, seed, stop_first=True):
     return done()
 
 
-def run(tier='quick', seed=0, stop_first=True, which=('distance', 'adaptive')):
+# ---------------------------------------------------------------- call site: elfi.Rejection feeding an AdaptiveDistance
+def _sim(mu, batch_size=1, random_state=None):
+    rs = random_state or np.random
+    return np.asarray(mu).reshape(-1, 1) + rs.normal(size=(batch_size, 5))
+
+
+def _s1(x):
+    return np.mean(x, axis=1)
+
+
+def _s2(x):
+    return 40. * np.var(x, axis=1)
+
+
+def _s3(x):
+    return np.column_stack([x[:, 0], 9. * x[:, 1]])
+
+
+SUMS = ('S2', 'S3', 'S1')      # parent order of the distance node; deliberately not alphabetical
+
+
+def rejection_case(elfi, output_names, batch_size, n_samples, n_sim, seed=0):
+    """elfi.Rejection over AdaptiveDistance(S1, S2, S3) (scalar, scalar, 2-vector; very different spreads) with the user's output_names;
+    an OutputPool keeps every simulated summary row.  -> None or text of the failure"""
+    with native.time_limit(60):
+        rs = np.random.RandomState(99 + seed)
+        y_obs = rs.normal(size=(1, 5))
+        m = elfi.ElfiModel()
+        mu = elfi.Prior('norm', 0, 2, model=m, name='mu')
+        Y = elfi.Simulator(_sim, mu, observed=y_obs, name='Y', model=m)
+        nodes = [elfi.Summary(f, Y, name=n, model=m) for n, f in zip(SUMS, (_s1, _s2, _s3))]
+        elfi.AdaptiveDistance(*nodes, name='d', model=m)
+        obs = np.column_stack([_s1(y_obs), _s2(y_obs), _s3(y_obs)])
+        pool = elfi.OutputPool(list(SUMS))
+        try:
+            rej = elfi.Rejection(m, 'd', output_names=None if output_names is None else list(output_names), batch_size=batch_size, seed=321 + seed, pool=pool)
+            res = rej.sample(n_samples, n_sim=n_sim, bar=False)
+        except Exception as e:
+            return 'Rejection raised %s: %s' % (type(e).__name__, str(e)[:160])
+        n_batches = rej.state['n_batches']
+        rows = np.concatenate([np.column_stack([pool.get_batch(i)[k] for k in SUMS]) for i in range(n_batches)])
+        w = rej.model['d'].state['w']
+    if len(w) != 2:
+        return 'expected exactly one update of the adaptive distance, found %d weight vectors' % len(w)
+    want = rows.std(axis=0)
+    got = 1. / np.asarray(w[-1], float)
+    if not _close(got, want):
+        return 'scale %s is not the population standard deviation %s of the %d simulated summary rows (columns in parent order %s)' % (got.tolist(), want.tolist(), len(rows), ', '.join(SUMS))
+    X = np.column_stack([res.outputs[k] for k in SUMS])
+    want_d = np.sqrt((((X - obs) / want) ** 2).sum(axis=1))
+    got_d = np.asarray(res.discrepancies, float)
+    if got_d.shape != want_d.shape or not _close(got_d, want_d):
+        return 'reported (newest) distances are not ||(summaries - observed)/scale||_2 of the returned rows'
+    return None
+
+
+def run_sampler(tier, seed, stop_first=True):
+    elfi = native.import_elfi()
+    import itertools
+    orders = [None, []] + [list(p) for r in (1, 2, 3) for p in itertools.permutations(SUMS, r)]
+    sizes = [(1, 4, 12), (7, 5, 28)] if tier == 'quick' else [(1, 5, 30), (16, 20, 80), (50, 10, 100)]
+    cases = nontrivial = 0
+    failures = []
+    name = 'rejection-feeds-adaptive-distance'
+    bound = 'AdaptiveDistance(S1, S2, S3) sampled by elfi.Rejection with an OutputPool; output_names = None, [] and every ordered subset of the summary names (%d orders); (batch_size, n_samples, n_sim) in %s' % (len(orders), sizes)
+    rule = 'non-trivial = output_names lists the summaries in an order that is not a prefix of the parent order'
+    done = lambda: dict(name=name, bound=bound, rule=rule, cases=cases, nontrivial=nontrivial, failures=failures)
+    for on in orders:
+        for (b, n, nsim) in sizes:
+            cases += 1
+            nontrivial += 1 if (on and list(on) != list(SUMS[:len(on)])) else 0
+            what = rejection_case(elfi, on, b, n, nsim, seed)
+            if what:
+                failures.append(dict(signature='c12:rejection-adaptive', what=what, input=dict(family='sampler', output_names=on, batch_size=b, n_samples=n, n_sim=nsim, seed=seed)))
+                if stop_first:
+                    return done()
+    return done()
+
+
+def run(tier='quick', seed=0, stop_first=True, which=('distance', 'adaptive', 'sampler')):
     out = []
     if 'distance' in which:
         out.append(run_distance(tier, seed, stop_first))
     if 'adaptive' in which:
         out.append(run_adaptive(tier, seed, stop_first))
+    if 'sampler' in which:
+        out.append(run_sampler(tier, seed, stop_first))
     return out
 
 
@@ -334,6 +418,8 @@ def replay_input(inp):
         return scale_case(elfi, inp['layout'], inp['X'], inp['parts']) is None
     if fam == 'rounds':
         return rounds_case(elfi, inp['layout'], [(X, p) for X, p in inp['rounds']], inp['Xe'], inp['Y']) is None
+    if fam == 'sampler':
+        return rejection_case(elfi, inp['output_names'], inp['batch_size'], inp['n_samples'], inp['n_sim'], inp.get('seed', 0)) is None
     if fam == 'constructor':
         n, fails = constructor_rule(elfi)
         return not fails
